@@ -30,7 +30,7 @@ for p in props:
         na.append({'property_id': p, 'reason': na_reasons.get(p, 'check not built yet (see DESIGN.md section 6 for the planned proof)')})
 man = {
     'version': 1,
-    'setup_cmd': 'cd lean && lake build',
+    'setup_cmd': 'python3 tools/setup.py',
     'hooks': {'guard': 'CHIBICC_VERIF',
               'enable': "make CFLAGS='-std=c11 -g -fno-common -Wall -Wno-switch -O0 -DCHIBICC_VERIF' on a scratch copy of /repo (done by ./check)",
               'baseline_off_cmd': 'cd /repo && make && make test',
